@@ -62,9 +62,13 @@ func (p *pp) Print(args ...interface{}) {
 	defer p.buf.SetMode(p.buf.GetMode())
 	np := newPrinter()
 	np.buf = p.buf
+	// The nested printer works under the same Safe()/Unsafe() override
+	// as its caller: the outermost wrapper decides.
+	np.override = p.override
 	np.doPrint(args)
 	p.buf = np.buf
 	np.buf = buffer{}
+	np.override = noOverride
 	np.free()
 }
 
@@ -72,9 +76,13 @@ func (p *pp) Printf(format string, arg ...interface{}) {
 	defer p.buf.SetMode(p.buf.GetMode())
 	np := newPrinter()
 	np.buf = p.buf
+	// The nested printer works under the same Safe()/Unsafe() override
+	// as its caller: the outermost wrapper decides.
+	np.override = p.override
 	np.doPrintf(format, arg)
 	p.buf = np.buf
 	np.buf = buffer{}
+	np.override = noOverride
 	np.free()
 }
 
